@@ -2,6 +2,7 @@
 import json
 import os
 import subprocess
+import sys
 
 import numpy as np
 
@@ -389,10 +390,98 @@ def _impl_one(lab, dt, layout="C", mask=None, size=None):
             rec.get("nh", []), rec.get("anh", []), int(rec.get("lcount", int(a.astype(np.int64).max()))), 1, flags]
 
 
-def impl(case):
+def _impl1(case):
     if case["k"] == "one":
         return {"r": [_impl_one(case["lab"], case["dt"], case.get("layout", "C"), case.get("mask"), case.get("size"))]}
     return {"r": [_impl_one(lab, "int64") for lab in _sweep_images(case)]}
+
+
+def _impl_safe(case):
+    try:
+        return _impl1(case)
+    except BaseException as e:      # noqa: same mapping as harness/worker.py
+        if isinstance(e, (KeyboardInterrupt, SystemExit)):
+            raise
+        return {"exc": type(e).__name__, "msg": str(e)[:300]}
+
+
+# -- parallel implementation workers (pattern of harness/props/c05.py) ------------------------------------------
+# harness/worker.py calls impl(case) for the cases of its input file one after the other.  impl() looks ahead in that
+# file and evaluates the next batch in a pool of forked processes (each has the staged package imported and evaluates
+# runs of consecutive cases, so history-dependence between calls still shows).  Any trouble (a child dies or hangs, the
+# case stream is not the file's) switches to plain sequential evaluation, so the core's localisation of crashes and
+# hangs keeps working.
+_PRE = {"cases": None, "pos": 0, "res": {}, "pool": None, "off": False}
+_WORKERS = 5
+
+
+def _case_cost(c):
+    if c["k"] == "sweep":
+        return 0.0005 * c["n"]
+    return 0.001 + 4e-6 * len(c["lab"]) * len(c["lab"][0])
+
+
+def _pool_off():
+    _PRE["off"] = True
+    p = _PRE["pool"]
+    _PRE["pool"] = None
+    if p is not None:
+        try:
+            for pr in list(getattr(p, "_processes", {}).values()):
+                pr.kill()
+            p.shutdown(wait=False, cancel_futures=True)
+        except Exception:
+            pass
+
+
+def _lookahead(case):
+    st = _PRE
+    if st["off"]:
+        return None
+    try:
+        if st["cases"] is None:
+            ok = len(sys.argv) >= 5 and sys.argv[2] == "impl" and os.path.basename(sys.argv[3]).startswith("in_")
+            if not ok:
+                st["off"] = True
+                return None
+            with open(sys.argv[3]) as f:
+                st["cases"] = json.load(f)
+            if len(st["cases"]) < 64:
+                st["off"] = True
+                return None
+        k = st["pos"]
+        if k >= len(st["cases"]) or st["cases"][k] != case:
+            _pool_off()
+            return None
+        if k not in st["res"]:
+            import multiprocessing
+            from concurrent.futures import ProcessPoolExecutor
+            if st["pool"] is None:
+                st["pool"] = ProcessPoolExecutor(_WORKERS, mp_context=multiprocessing.get_context("fork"))
+            batch, cost = [], 0.0
+            while k + len(batch) < len(st["cases"]) and cost < 12.0 and len(batch) < 4000:
+                c = st["cases"][k + len(batch)]
+                batch.append(c)
+                cost += _case_cost(c)
+            st["res"] = {}
+            chunk = max(1, min(32, len(batch) // (4 * _WORKERS)))
+            for n, r in enumerate(st["pool"].map(_impl_safe, batch, timeout=CASE_TIMEOUT, chunksize=chunk)):
+                st["res"][k + n] = r
+        st["pos"] = k + 1
+        return st["res"].pop(k)
+    except BaseException as e:
+        if isinstance(e, (KeyboardInterrupt, SystemExit)):
+            raise
+        _pool_off()
+        return None
+
+
+def impl(case):
+    r = _lookahead(case)
+    if r is None:
+        _PRE["pos"] += 1
+        return _impl1(case)
+    return r
 
 
 def _bad(o):
@@ -427,16 +516,33 @@ def _run(ctx, entry, args):
     return [{"model_error": l[1:]} if l.startswith("!") else json.loads(l.translate(_TR_IN)) for l in lines]
 
 
-def _par(ctx, entry, args, nproc=6):
-    """split a big batch over several driver processes"""
-    if len(args) < 4000:
+def _arg_cost(a):
+    try:
+        img = a[0]
+        return 40 + len(img) * len(img[0])
+    except Exception:
+        return 100
+
+
+def _par(ctx, entry, args, nproc=5):
+    """split a batch over several driver processes, balanced by image size (longest-processing-time first)"""
+    if len(args) < 64:
         return _run(ctx, entry, args)
     from concurrent.futures import ThreadPoolExecutor
-    step = (len(args) + nproc - 1) // nproc
-    chunks = [args[s:s + step] for s in range(0, len(args), step)]
-    with ThreadPoolExecutor(nproc) as ex:
-        parts = list(ex.map(lambda c: _run(ctx, entry, c), chunks))
-    return [x for p in parts for x in p]
+    order = sorted(range(len(args)), key=lambda k: -_arg_cost(args[k]))
+    bins = [[] for _ in range(nproc)]
+    load = [0] * nproc
+    for k in order:
+        b = load.index(min(load))
+        bins[b].append(k); load[b] += _arg_cost(args[k])
+    bins = [b for b in bins if b]
+    with ThreadPoolExecutor(len(bins)) as ex:
+        parts = list(ex.map(lambda b: _run(ctx, entry, [args[k] for k in b]), bins))
+    res = [None] * len(args)
+    for b, part in zip(bins, parts):
+        for k, r in zip(b, part):
+            res[k] = r
+    return res
 
 
 def _plain(c):
@@ -454,10 +560,14 @@ def model(ctx, cases, outs):
             if c["k"] == "one":
                 gargs.append([lab, [] if c.get("mask") is None else [c["mask"]], c.get("size") or [], r[1], r[2], r[:12]])
                 gwhere.append((k, n))
-    res = _par(ctx, "entry_fill_eq", args)
-    gres = _par(ctx, "entry_gen_eq", gargs)
-    # the labelling hypothesis of C08_fill_labeled_holes_correct_img, tested on scipy's blabels and on the model's own
-    lres = _par(ctx, "entry_label_ok", [a[:3] for a in args])
+    # the three passes run side by side; entry_label_ok = the labelling hypothesis of C08_fill_labeled_holes_correct_img,
+    # tested on scipy's blabels and on the model's own
+    from concurrent.futures import ThreadPoolExecutor
+    with ThreadPoolExecutor(3) as ex:
+        f1 = ex.submit(_par, ctx, "entry_fill_eq", args)
+        f2 = ex.submit(_par, ctx, "entry_gen_eq", gargs)
+        f3 = ex.submit(_par, ctx, "entry_label_ok", [a[:3] for a in args])
+        res, gres, lres = f1.result(), f2.result(), f3.result()
     mouts = [[] for _ in cases]
     for (k, n), m, lo in zip(where, res, lres):
         mouts[k].append(m if lo == [1, 1] else ["labelling", lo])
